@@ -3,6 +3,8 @@ import H2V.Lemmas.ConnNoPanicPFiStep
 import H2V.Lemmas.ConnNoPanicPDsPoll
 import H2V.Lemmas.ConnNoPanicPStickyStep
 import H2V.Lemmas.ConnNoPanicPConnHist
+import H2V.Lemmas.ConnNoPanicPRespInv
+import H2V.Lemmas.ConnNoPanicPFiPoll2
 /-
   C08 (no panic) — everything together (stage 4): the write path.  State = stream layer + the codec's writer (ghost for the
   stream-layer theorem: `poll_complete` runs against the CURRENT writer) + the handles held by the application.
@@ -52,21 +54,41 @@ theorem opPre_of4 {s : Streams} {H : List Nat} {op : Op} (g : Good4 s H) (h : op
 theorem opKey_sub3 {op : Op} {k : Nat} (h : opKey op = some k) : opKey3 op = some k := by
   cases op <;> first | exact h | cases h
 
-/-- preconditions of stage 4: those of stage 3, the typing of the two `SendResponse`-only calls, `usize` room for the data -/
-def opPre5 (s : Streams) (op : Op) : Prop := opPre4 s op ∧ fiPre s op ∧ opLen s op
+/-- the discipline of the response future (np-resp): `poll_response` only while the response has not been returned (`T`);
+    no `take_request` / `clear_recv_buffer` on such a stream -/
+def respPre' (T : List Nat) : Op → Prop
+  | .recvPollResponse _ k _ => k ∈ T
+  | .refClearRecvBuffer k => k ∉ T
+  | .recvTakeRequest k => k ∉ T
+  | _ => True
+
+def isPollResp : Op → Bool
+  | .recvPollResponse _ _ _ => true
+  | _ => false
+
+/-- preconditions of stage 4: those of stage 3 (`poll_response`: none), the typing of the two `SendResponse`-only calls,
+    `usize` room for the data, the discipline of the response future -/
+def opPre5 (s : Streams) (T : List Nat) (op : Op) : Prop :=
+  (isPollResp op = false → opPre4 s op) ∧ fiPre s op ∧ opLen s op ∧ respPre' T op
+
+theorem respPre_of {s : Streams} {T : List Nat} {op : Op} (h : respPre' T op) (hp : NoPush s) : respPre s T op := by
+  cases op
+  case recvPushPromise id hd => exact hp
+  all_goals exact h
 
 /-- **`FJ` along every operation outside the write path** -/
-theorem FJ_step4 {s : Streams} {H : List Nat} (g : Good4 s H) (hj : FJ s) (op : Op) (hpre : opPre5 s op)
+theorem FJ_step4 {s : Streams} {H : List Nat} (g : Good4 s H) (hj : FJ s) (op : Op)
+    (hpre : extraOp op = false → opPre4 s op) (hty : fiPre s op)
     (hin : ∀ k, opKey3 op = some k → k ∈ H) (he : ErrOK s) (he' : ErrOK (op.apply s))
     (hnw : usesWriter op = false) (hnp : ∀ m, op ≠ .panic m) : FJ (op.apply s) := by
   have hn := g.g3.good.npi
   by_cases hx : extraOp op = false
-  · exact FJ_step hn g.g3.good.hok hj op (opPre_of4 g hpre.1 hx) hpre.2.1 (fun k hk => hin k (opKey_sub3 hk)) he he'
+  · exact FJ_step hn g.g3.good.hok hj op (opPre_of4 g (hpre hx) hx) hty (fun k hk => hin k (opKey_sub3 hk)) he he'
   · cases op <;> first | exact absurd rfl hx | skip
     case setTargetConnectionWindow t => exact FJ_setTargetConnectionWindow hj t
     case refSendPushPromise p v f =>
       obtain ⟨x, hx', _⟩ := g.g3.good.hok p (hin p rfl)
-      exact FJ_refSendPushPromise hn g.g3.good.ibs hj ⟨x, hx'⟩ hpre.2.1 v f
+      exact FJ_refSendPushPromise hn g.g3.good.ibs hj ⟨x, hx'⟩ hty v f
     case recvPushPromise id hd =>
       have e : (Op.recvPushPromise id hd).apply s = s := recvPushPromise_nopush g.g3.nopush id hd
       rw [e]; exact hj
@@ -90,5 +112,209 @@ theorem WStep.wle {w w' : Writer} (h : WStep w w') : WLE w w' := by
   | shutdownW io t => exact shutdownW_wle w io t
   | setHpackMax v => exact .of_eq rfl rfl
   | setMaxFrameSize v => exact .of_eq rfl rfl
+
+-- ===================================================================== the bundle with the writer
+
+/-- what is still open about `OH` ("a pending_open stream's front frame is not DATA").  `R`: what the history itself
+    promises about every new state (a RESIDUAL state hypothesis; `fun _ => True` once `OH` is proved invariant); `Q`: the
+    predicate carried by the induction.  Two instances: `Plug.residual` (`R = Q = OH`) and, if np-ds's `OXs` closes,
+    `R = fun _ => True`, `Q = OXs`. -/
+structure Plug (R Q : Streams → Prop) : Prop where
+  oh : ∀ {s : Streams}, Q s → OH s
+  blank : ∀ {s : Streams}, R s → Blank s → (∀ q, s.getQ q = []) → Q s
+  step : ∀ {s : Streams} {H T : List Nat}, Good4 s H → FJ s → Q s → ∀ (op : Op), opPre5 s T op →
+    (∀ k, opKey3 op = some k → k ∈ H) → ErrOK s → usesWriter op = false → (∀ m, op ≠ .panic m) → R (op.apply s) → Q (op.apply s)
+  pc : ∀ {g : ConnRecvP.Ghost} {s : Streams} {w : Writer}, WI (fun _ => False) g s w → FJ s → Q s → ∀ (fuel : Nat) (io : Tio) (tag : String),
+    (Streams.pollComplete fuel s w io tag).1.panicked = none → R (Streams.pollComplete fuel s w io tag).1 →
+    Q (Streams.pollComplete fuel s w io tag).1
+  pr : ∀ {g : ConnRecvP.Ghost} {s : Streams} {w : Writer}, WI (fun _ => False) g s w → FJ s → Q s → ∀ (fuel : Nat) (io : Tio) (tag : String),
+    R (Streams.pollSendPendingRefusal fuel s w io tag).1 → Q (Streams.pollSendPendingRefusal fuel s w io tag).1
+
+/-- `OH` as a residual hypothesis on the states of the history -/
+theorem Plug.residual : Plug OH OH :=
+  ⟨fun h => h, fun h _ _ => h, fun _ _ _ _ _ _ _ _ _ h => h, fun _ _ _ _ _ _ _ h => h, fun _ _ _ _ _ _ h => h⟩
+
+/-- the invariant bundle of stage 4; `T`: the streams whose response future has not returned yet -/
+structure GoodW (Q : Streams → Prop) (s : Streams) (w : Writer) (H T : List Nat) : Prop where
+  g4 : Good4 s H
+  fj : FJ s
+  dsw : DSW s w
+  rj : RJ s H T
+  q : Q s
+
+theorem GoodW.wi {Q : Streams → Prop} {s : Streams} {w : Writer} {H T : List Nat} (g : GoodW Q s w H T) (he : ErrOK s) :
+    ∃ gh, WI (fun _ => False) gh s w :=
+  let ⟨gh, hg⟩ := g.g4.jf
+  ⟨gh, ⟨g.g4.g3.good.npi, he, g.fj.fi⟩, g.g4.g3.good.safe, hg, g.dsw.ds, g.dsw.cp⟩
+
+theorem opHandles_sub3 (s : Streams) (H : List Nat) (op : Op) : ∀ k ∈ opHandles s H op, k ∈ opHandles3 s H op := by
+  intro k hk
+  cases op <;> first | exact hk | skip
+  case nextIncoming =>
+    show k ∈ (match s.nextIncoming.2 with | some c => c :: H | none => H)
+    cases s.nextIncoming.2 with
+    | none => exact hk
+    | some c => exact List.mem_cons_of_mem _ hk
+  case refSendPushPromise p v f =>
+    show k ∈ (match (s.refSendPushPromise p v f).2 with | .ok c => c :: H | .error _ => H)
+    cases (s.refSendPushPromise p v f).2 with
+    | error e => exact hk
+    | ok c => exact List.mem_cons_of_mem _ hk
+
+/-- `poll_response` through a held handle on a stream whose response has not been returned -/
+theorem good4_pollResp {s : Streams} {H T : List Nat} (g : Good4 s H) (hj : RJ s H T) (f k : Nat) (t : String)
+    (hk : k ∈ T) (he : ErrOK s) : Good4 (Streams.recvPollResponse f s k t).1 H := by
+  have hks := g.g3.good.npi.keys
+  have hn' := recvPollResponse_npi g.g3.good.npi g.g3.good.hok hj hk f t
+  have hkH : k ∈ H := hj.sub k hk
+  exact ⟨⟨⟨hn', hok_generic hks g.g3.good.hok (.recvPollResponse f k t) (by intro j e; cases e),
+      g.g3.good.ibs.of_evF hks (recvPollResponse_ev (ρ := false) f s k t),
+      JR_step g.g3.good.jr (.recvPollResponse f k t) trivial, safeInv_step g.g3.good.safe (.recvPollResponse f k t) trivial⟩,
+      NoPPP_step g.g3.noppp g.g3.nopush (.recvPollResponse f k t), NoPush_step g.g3.nopush (.recvPollResponse f k t)⟩,
+    J_stepAll g.g3.good.npi g.g3.good.hok g.j (.recvPollResponse f k t) trivial (by intro j e; cases e; exact hkH),
+    JF_step g.jf (.recvPollResponse f k t) trivial he trivial⟩
+
+/-- an operation outside the write path -/
+theorem goodW_op {R Q : Streams → Prop} (P : Plug R Q) {s : Streams} {w : Writer} {H T : List Nat} (g : GoodW Q s w H T) (op : Op)
+    (hpre : opPre5 s T op) (hin : ∀ k, opKey3 op = some k → k ∈ H) (he : ErrOK s) (he' : ErrOK (op.apply s))
+    (hnw : usesWriter op = false) (hnp : ∀ m, op ≠ .panic m) (hR : R (op.apply s)) :
+    GoodW Q (op.apply s) w (opHandles3 s H op) (opResp s H T op) := by
+  have hg4 : Good4 (op.apply s) (opHandles3 s H op) := by
+    by_cases hp : ∃ f k t, op = .recvPollResponse f k t
+    · obtain ⟨f, k, t, rfl⟩ := hp
+      exact good4_pollResp g.g4 g.rj f k t hpre.2.2.2 he
+    · refine good4_step g.g4 op (hpre.1 ?_) hin he he'
+      cases op <;> first | rfl | exact absurd ⟨_, _, _, rfl⟩ hp
+  have hfj : FJ (op.apply s) := by
+    refine FJ_step4 g.g4 g.fj op (fun hx => hpre.1 ?_) hpre.2.1 hin he he' hnw hnp
+    cases op <;> first | rfl | cases hx
+  have hrj := RJ_step g.g4.g3.good.npi g.g4.g3.good.hok g.rj op hnp (respPre_of hpre.2.2.2 g.g4.g3.nopush)
+    (fun k _ => g.g4.g3.noppp.dropPPP k) he
+  exact ⟨hg4, hfj, DSW_step g.g4.g3.good.npi g.dsw (P.oh g.q) op hpre.2.2.1 (opNoWriter_of hnw),
+    hrj.mono (opHandles_sub3 s H op), P.step g.g4 g.fj g.q op hpre hin he hnw hnp hR⟩
+
+/-- the generic components along a write-path operation -/
+theorem good4_writer {s : Streams} {H : List Nat} (g : Good4 s H) (op : Op) (hw : usesWriter op = true)
+    {gh : ConnRecvP.Ghost} (hn : NPI (fun _ => False) (op.apply s)) (hsf : ConnFlowP.SafeInv (op.apply s))
+    (hr : ConnRecvP.Inv true gh (op.apply s)) : Good4 (op.apply s) H := by
+  have hk := g.g3.good.npi.keys
+  have hnd : ∀ j, op ≠ .dropStreamRef j := by intro j e; subst e; cases hw
+  have hacc : accPre2 s op := by cases op <;> first | exact trivial | cases hw
+  have hkey : ∀ k, accKey op = some k → k ∈ H := by
+    intro k hk'; cases op <;> first | (cases hw; done) | cases hk'
+  have hev : EvB false s (op.apply s) := by
+    cases op <;> first | cases hw | skip
+    case pollComplete f w io t => exact pollComplete_ev (ρ := false) f s w io t
+    case pollSendPendingRefusal f w io t => exact pollSendPendingRefusal_ev (ρ := false) f s w io t
+  exact ⟨⟨⟨hn, hok_generic hk g.g3.good.hok op hnd, g.g3.good.ibs.of_evF hk hev, ⟨gh, hr.drop_full⟩, hsf⟩,
+    NoPPP_step g.g3.noppp g.g3.nopush op, NoPush_step g.g3.nopush op⟩,
+    J_stepAll g.g3.good.npi g.g3.good.hok g.j op hacc hkey, ⟨gh, hr⟩⟩
+
+theorem rj_writer {s : Streams} {H T : List Nat} (g : Good4 s H) (hj : RJ s H T) (op : Op) (hw : usesWriter op = true) (he : ErrOK s) :
+    RJ (op.apply s) H T := by
+  have h := RJ_step g.g3.good.npi g.g3.good.hok hj op (by intro m e; subst e; cases hw)
+    (by cases op <;> first | exact trivial | cases hw) (fun k _ => g.g3.noppp.dropPPP k) he
+  have e1 : opHandles s H op = H := by cases op <;> first | rfl | cases hw
+  have e2 : opResp s H T op = T := by cases op <;> first | rfl | cases hw
+  rw [e1, e2] at h; exact h
+
+/-- `poll_complete` against the current writer: the bundle is kept, or the model ran out of fuel -/
+theorem goodW_pollComplete {R Q : Streams → Prop} (P : Plug R Q) {s : Streams} {w : Writer} {H T : List Nat} (g : GoodW Q s w H T)
+    (he : ErrOK s) (fuel : Nat) (io : Tio) (tag : String) (hR : R (Streams.pollComplete fuel s w io tag).1) :
+    OutOfFuel (Streams.pollComplete fuel s w io tag).1 ∨
+    GoodW Q (Streams.pollComplete fuel s w io tag).1 (Streams.pollComplete fuel s w io tag).2.1 H T := by
+  obtain ⟨gh, hwi⟩ := g.wi he
+  rcases pollComplete_wk fuel hwi g.dsw.km io tag with ho | ⟨hw', hk'⟩
+  · exact .inl ho
+  · rcases FJ_pollComplete hwi g.fj fuel io tag with ho | ⟨_, hfj⟩
+    · exact .inl ho
+    · exact .inr ⟨good4_writer g.g4 (.pollComplete fuel w io tag) rfl hw'.pi.npi hw'.safe hw'.recv, hfj,
+        ⟨hw'.ds, hw'.cp, hk'⟩, rj_writer g.g4 g.rj (.pollComplete fuel w io tag) rfl he,
+        P.pc hwi g.fj g.q fuel io tag hw'.pi.npi.np hR⟩
+
+/-- `send_pending_refusal` against the current writer -/
+theorem goodW_pollSendPendingRefusal {R Q : Streams → Prop} (P : Plug R Q) {s : Streams} {w : Writer} {H T : List Nat}
+    (g : GoodW Q s w H T) (he : ErrOK s) (fuel : Nat) (io : Tio) (tag : String)
+    (hR : R (Streams.pollSendPendingRefusal fuel s w io tag).1) :
+    GoodW Q (Streams.pollSendPendingRefusal fuel s w io tag).1 (Streams.pollSendPendingRefusal fuel s w io tag).2.1 H T := by
+  obtain ⟨gh, hwi⟩ := g.wi he
+  obtain ⟨hw', hk'⟩ := pollSendPendingRefusal_wk fuel hwi g.dsw.km io tag
+  exact ⟨good4_writer g.g4 (.pollSendPendingRefusal fuel w io tag) rfl hw'.pi.npi hw'.safe hw'.recv,
+    FJ_pollSendPendingRefusal g.fj fuel w io tag, ⟨hw'.ds, hw'.cp, hk'⟩,
+    rj_writer g.g4 g.rj (.pollSendPendingRefusal fuel w io tag) rfl he, P.pr hwi g.fj g.q fuel io tag hR⟩
+
+theorem GoodW.writer {Q : Streams → Prop} {s : Streams} {w w' : Writer} {H T : List Nat} (g : GoodW Q s w H T) (h : WStep w w') :
+    GoodW Q s w' H T := ⟨g.g4, g.fj, g.dsw.wle h.wle, g.rj, g.q⟩
+
+-- ===================================================================== histories with the writer
+
+/-- **the final stream-layer relation**: histories of (stream layer, codec writer, handles held `H`, response futures not
+    yet returned `T`).  Operations outside the write path (precondition `opPre5`, handle discipline), `poll_complete` /
+    `send_pending_refusal` run against the CURRENT writer, the connection's own writer steps (`WStep`: control frames,
+    flush, …), and the two fuel markers of the connection model (`FuelMsg`). -/
+inductive WReach (R : Streams → Prop) : Streams → Writer → List Nat → List Nat → Prop
+  | init {s : Streams} {w : Writer} : Init2 s → NoPush s → w.lastDataFrame = none → w.next = none → R s → WReach R s w [] []
+  | op {s : Streams} {w : Writer} {H T : List Nat} (op : Op) : WReach R s w H T → usesWriter op = false → (∀ m, op ≠ .panic m) →
+      opPre5 s T op → (∀ k, opKey3 op = some k → k ∈ H) → R (op.apply s) →
+      WReach R (op.apply s) w (opHandles3 s H op) (opResp s H T op)
+  | fuel {s : Streams} {w : Writer} {H T : List Nat} (m : String) : WReach R s w H T → FuelMsg m → WReach R (s.panic m) w H T
+  | pollComplete {s : Streams} {w : Writer} {H T : List Nat} (fuel : Nat) (io : Tio) (tag : String) : WReach R s w H T →
+      R (Streams.pollComplete fuel s w io tag).1 →
+      WReach R (Streams.pollComplete fuel s w io tag).1 (Streams.pollComplete fuel s w io tag).2.1 H T
+  | pollSendPendingRefusal {s : Streams} {w : Writer} {H T : List Nat} (fuel : Nat) (io : Tio) (tag : String) : WReach R s w H T →
+      R (Streams.pollSendPendingRefusal fuel s w io tag).1 →
+      WReach R (Streams.pollSendPendingRefusal fuel s w io tag).1 (Streams.pollSendPendingRefusal fuel s w io tag).2.1 H T
+  | writer {s : Streams} {w w' : Writer} {H T : List Nat} : WReach R s w H T → WStep w w' → WReach R s w' H T
+
+theorem WReach.keys {R : Streams → Prop} {s : Streams} {w : Writer} {H T : List Nat} (h : WReach R s w H T) : KeysOK s ∧ NextLocal s := by
+  induction h with
+  | init hi _ _ _ _ => exact ⟨hi.blank.keysOK, hi.blank.next⟩
+  | op o _ _ _ _ _ _ ih => exact keys_step_op ih.1 ih.2 o
+  | fuel m _ _ ih => exact keys_step_op ih.1 ih.2 (.panic m)
+  | pollComplete f io t _ _ ih => exact keys_step_op ih.1 ih.2 (.pollComplete f _ io t)
+  | pollSendPendingRefusal f io t _ _ ih => exact keys_step_op ih.1 ih.2 (.pollSendPendingRefusal f _ io t)
+  | writer _ _ ih => exact ih
+
+/-- a recorded fuel marker stays -/
+theorem fuelAll_sticky {s : Streams} (op : Op) (h : ∃ m, s.panicked = some m ∧ FuelAll m) :
+    ∃ m, (op.apply s).panicked = some m ∧ FuelAll m :=
+  let ⟨m, hm, hf⟩ := h; ⟨m, op_sticky s op m hm, hf⟩
+
+/-- **No panic but the model's own fuel markers, in every history of the final relation** -/
+theorem wreach_good {R Q : Streams → Prop} (P : Plug R Q) {s : Streams} {w : Writer} {H T : List Nat} (h : WReach R s w H T)
+    (he : ErrOK s) : (s.panicked = none ∧ GoodW Q s w H T) ∨ ∃ m, s.panicked = some m ∧ FuelAll m := by
+  induction h with
+  | init hi hp h1 h2 hR =>
+    exact .inl ⟨hi.np, ⟨⟨⟨blank_npi hi.blank hi.np hi.q, fun k hk => absurd hk List.not_mem_nil, IBS_blank hi.blank hi.q,
+      JR_init hi.recv, ConnFlowP.Init.safe hi.flow⟩, NoPPP_blank hi.blank, hp⟩, J_blank hi.blank hi.q, JF_init hi.recv⟩,
+      FJ_blank hi.blank hi.q, DSW_blank hi.blank h1 h2, RJ_blank _, P.blank hR hi.blank hi.q⟩
+  | @op t w H T o hr hnw hnp hpre hin hR ih =>
+    have he0 : ErrOK t := errOK_back_op hr.keys.1 hr.keys.2 o he
+    rcases ih he0 with ⟨_, g⟩ | hf
+    · have g' := goodW_op P g o hpre hin he0 he hnw hnp hR
+      exact .inl ⟨g'.g4.g3.good.npi.np, g'⟩
+    · exact .inr (fuelAll_sticky o hf)
+  | @fuel t w H T m hr hm ih =>
+    have he0 : ErrOK t := errOK_back_op hr.keys.1 hr.keys.2 (.panic m) he
+    rcases ih he0 with ⟨hnp, _⟩ | hf
+    · exact .inr ⟨m, panic_of_noneP hnp m, .inl hm⟩
+    · exact .inr (fuelAll_sticky (.panic m) hf)
+  | @pollComplete t w H T f io tag hr hR ih =>
+    have he0 : ErrOK t := errOK_back_op hr.keys.1 hr.keys.2 (.pollComplete f w io tag) he
+    rcases ih he0 with ⟨_, g⟩ | hf
+    · rcases goodW_pollComplete P g he0 f io tag hR with ho | g'
+      · exact .inr ho.fuelAll
+      · exact .inl ⟨g'.g4.g3.good.npi.np, g'⟩
+    · exact .inr (fuelAll_sticky (.pollComplete f w io tag) hf)
+  | @pollSendPendingRefusal t w H T f io tag hr hR ih =>
+    have he0 : ErrOK t := errOK_back_op hr.keys.1 hr.keys.2 (.pollSendPendingRefusal f w io tag) he
+    rcases ih he0 with ⟨_, g⟩ | hf
+    · have g' := goodW_pollSendPendingRefusal P g he0 f io tag hR
+      exact .inl ⟨g'.g4.g3.good.npi.np, g'⟩
+    · exact .inr (fuelAll_sticky (.pollSendPendingRefusal f w io tag) hf)
+  | writer hr hw ih =>
+    rcases ih he with ⟨hnp, g⟩ | hf
+    · exact .inl ⟨hnp, g.writer hw⟩
+    · exact .inr hf
 
 end H2V.Lemmas.ConnNoPanicP
